@@ -229,3 +229,30 @@ CONTRACTS[U + 'pauli_is_onsite'] = dict(
     modifies=[], returns='bool',
     loops={0: dict(var='i', invariant=['out', 'forall(k, 0, i, k == i0 or (g[2 * k] == 0 and g[2 * k + 1] == 0))'])},
 )
+
+# ------------------------------------------------------------------ C07: expectation kernel
+PREDS['no_anti'] = (('gs', 'obs', 'n', 'N'), 'forall(i, 0, n, AcqSum(gs[i], obs, N) % 2 == 0)')
+PREDS['expect_val'] = (('x', 'gs', 'ps', 'obs', 'pobs', 'r', 'N'),
+    # 0 iff some stabilizer / standby row (index < N + r) anticommutes with the observable; otherwise the sign is that of
+    # the ordered product of the active stabilizers selected by the anticommuting active destabilizers
+    ['implies(not no_anti(gs, obs, N + r, N), x == 0)',
+     'implies(no_anti(gs, obs, N + r, N), x == (-1) ** (((OrdP(DestabSel(gs, obs, r, N), gs, ps, N, N) - pobs) % 4) // 2))'])
+_exp_shapes = ['len(xs) == L', 'len(ga) == 2 * N']
+CONTRACTS[U + 'stabilizer_expect'] = dict(
+    params=[('gs_stb', 'int2'), ('ps_stb', 'int1'), ('gs_obs', 'int2'), ('ps_obs', 'int1'), ('r', 'int')],
+    requires=['cols(gs_obs) % 2 == 0', 'rows(gs_stb) == cols(gs_obs)', 'cols(gs_stb) == cols(gs_obs)',
+              'len(ps_stb) == rows(gs_stb)', 'len(ps_obs) == rows(gs_obs)', '0 <= r <= cols(gs_obs) // 2',
+              'bits2(gs_stb)', 'bits2(gs_obs)'],
+    ensures=['len(result) == rows(gs_obs)',
+             'forall(k, 0, rows(gs_obs), expect_val(result[k], gs_stb, ps_stb, gs_obs[k], ps_obs[k], r, cols(gs_obs) // 2))'],
+    modifies=[], returns='int1 fresh',
+    loops={0: dict(var='k', invariant=_exp_shapes + [
+               'forall(kk, 0, k, expect_val(xs[kk], gs_stb, ps_stb, gs_obs[kk], ps_obs[kk], r, N))']),
+           1: dict(var='j', invariant=_exp_shapes + ['0 <= k < L', 'trivial',
+               'forall(kk, 0, k, expect_val(xs[kk], gs_stb, ps_stb, gs_obs[kk], ps_obs[kk], r, N))',
+               'no_anti(gs_stb, gs_obs[k], min(j, N + r), N)',
+               'pa == OrdP(DestabSel(gs_stb, gs_obs[k], r, N), gs_stb, ps_stb, j - N, N)',
+               'forall(c, 0, 2 * N, ga[c] == OrdG(DestabSel(gs_stb, gs_obs[k], r, N), gs_stb, j - N, c))',
+               'bits(ga, 2 * N)'],
+               hints_head=[('lemma?', 'ipowsum_ext', ['ga', 'OrdGRow(DestabSel(gs_stb, gs_obs[k], r, N), gs_stb, j - N)', 'gs_stb[j - N]', 'N'])])},
+)
